@@ -288,6 +288,7 @@ def run(modname: str, tier: str, seed: int, workers: int) -> int:
 
     known_hits: Dict[str, Dict[str, Any]] = {}
     new_viol = 0
+    unrepro: List[Any] = []
     nconf = 0
     lines: List[str] = []
     rdir = os.path.join(os.environ.get("VERIF_REPLAY_DIR", os.path.join(VERIF, "replays")), pid)
@@ -306,8 +307,10 @@ def run(modname: str, tier: str, seed: int, workers: int) -> int:
         if nconf <= MAX_CONFIRM and not real_sched:
             ok, msg = confirm_replay(modname, path, sig)
             if not ok:
-                print(f"HARNESS-ERROR property={pid} nondeterministic replay for {sig}: {msg}")
-                return 2
+                # not reproducible from its own world in a fresh process: the outcome depended on what the worker had
+                # executed before (or on uncaptured nondeterminism). Never reported as a violation.
+                unrepro.append((sig, msg))
+                continue
         ke = known_entry(sig)
         if ke is not None:
             h = known_hits.setdefault(ke.get("signature") or ke.get("signature_glob"), dict(entry=ke, sigs=[], count=0, replay=path))
@@ -358,6 +361,13 @@ def run(modname: str, tier: str, seed: int, workers: int) -> int:
         json.dump(ev, fh, indent=1, default=str)
     for ln in lines:
         print(ln)
+    for sig, msg in unrepro:
+        print(f"UNREPRODUCIBLE property={pid} signature={sig} :: observed during exploration but not when its world is replayed "
+              f"alone in a fresh process ({msg}); not counted as a violation")
+    if unrepro and not new_viol:
+        print(f"HARNESS-ERROR property={pid} {len(unrepro)} outcome(s) depend on execution history inside a worker and no "
+              f"reproducible violation was found")
+        return 2
     print(f"[{pid}/{tier}] states={agg['n']} transitions={ev['coverage']['transitions']} impl_runs={agg['execs']} "
           f"nontrivial={agg['nontrivial']} outcomes={len(agg['outcomes'])} signatures={len(sigs)} "
           f"new_violations={new_viol} wall={wall:.1f}s")
